@@ -361,6 +361,64 @@ def run(tier='quick', seed=0):
         basic.load_theory('real')
     except Exception as e_:
         samples.append({'auto_conv_part': 'skipped: %s: %s' % (type(e_).__name__, str(e_)[:120])})
+    # ---- the sum normaliser registered for real `+` called DIRECTLY (auto.auto_conv re-normalises until a fixed point and
+    # hides a result that is not a normal form): sums of normalised monomials in which one monomial is cancelled; equal
+    # polynomials get one normal form, a normal form is a fixed point, the equation is about the given term and checks
+    try:
+        from data import real as real_
+        from kernel.term import Real as Real_
+        basic.load_theory('real')
+        rng_s = random.Random('%s/sum-normaliser' % seed)
+        xs_ = [Var(n_, RealType) for n_ in 'xyz']
+        cvs = real_.norm_add_polynomial()
+
+        def direct(t):
+            pt_ = cvs.get_proof_term(t)
+            theory.check_proof(pt_.export())
+            return pt_
+
+        def mono(c_, v_):
+            return v_ if c_ == 1 else Real_(c_) * v_
+        for it in range(60 if tier == 'quick' else 600):
+            k_ = rng_s.choice([2, 2, 3])
+            vars_ = xs_[:k_]
+            cs_ = [rng_s.choice([1, 1, 2, 3, -1]) for _ in vars_]
+            base = None
+            for c_, v_ in zip(cs_, vars_):
+                base = mono(c_, v_) if base is None else base + mono(c_, v_)
+            j_ = rng_s.randrange(k_)
+            cancel = mono(-cs_[j_], vars_[j_]) if -cs_[j_] != 1 else vars_[j_]
+            rest = None
+            for i_, (c_, v_) in enumerate(zip(cs_, vars_)):
+                if i_ != j_:
+                    rest = mono(c_, v_) if rest is None else rest + mono(c_, v_)
+            forms = [base + cancel, cancel + base]
+            evals += 1
+            try:
+                pts_ = [direct(f_) for f_ in forms]
+                want = direct(rest).prop.rhs if rest.is_plus() else rest
+            except Exception:
+                continue
+            distinct.add(('norm_add_polynomial', repr(forms[0])))
+            for f_, pt_ in zip(forms, pts_):
+                if pt_.prop.lhs != f_ or pt_.hyps:
+                    violations.append({'function': 'conversion real.norm_add_polynomial', 'clause': 'equation-about-t',
+                                       'what': 'left side %s, hypotheses %s' % (pt_.prop.lhs, [str(h) for h in pt_.hyps]),
+                                       'term': repr(f_)})
+                if pt_.prop.rhs != want:
+                    violations.append({'function': 'conversion real.norm_add_polynomial', 'clause': 'canonical',
+                                       'what': 'sum-normaliser: %s normalises to %s, the equal polynomial %s to %s' % (
+                                           f_, pt_.prop.rhs, rest, want), 'term': repr(f_)})
+                if pt_.prop.rhs.is_plus():
+                    try:
+                        again = direct(pt_.prop.rhs).prop.rhs
+                    except Exception:
+                        continue
+                    if again != pt_.prop.rhs:
+                        violations.append({'function': 'conversion real.norm_add_polynomial', 'clause': 'idempotent',
+                                           'what': 'sum-normaliser: %s -> %s -> %s' % (f_, pt_.prop.rhs, again), 'term': repr(f_)})
+    except Exception as e_:
+        samples.append({'sum_normaliser_part': 'skipped: %s: %s' % (type(e_).__name__, str(e_)[:120])})
     seen = set()
     uniq = []
     for v in violations:
